@@ -1,5 +1,5 @@
 (* C15 - CNF encodings (verified checker) and exact enumeration of minimal correction subsets. *)
-From InfOCF Require Import Core Form Mcs Clause Cnf ThmCnf ThmRS.
+From InfOCF Require Import Core Form Mcs Clause Cnf ThmCnf ThmRS ThmBlock.
 
 (* (a) the checker evaluated on every CNF the implementation produces is sound and complete for faithfulness:
    for every complete assignment w of the atoms, the clause set is satisfiable together with w iff w satisfies
@@ -53,6 +53,19 @@ Theorem C15_get_violated_exact : forall m cost ig nf, Clause.nv m (Clause.flat i
   forall k, In k (Clause.get_violated m cost ig nf) <-> exists cl, In (k, cl) (Clause.flat ig nf) /\ Clause.csat m cl = false.
 Proof. exact violated_exact. Qed.
 Print Assumptions C15_get_violated_exact.
+
+(* the blocking constraint of exclude_violated (clauses (c \/ ~h_i), one clause (h_1 \/ ... \/ h_k); helper variables fresh and
+   pairwise distinct): an assignment of the original variables extends to a model of it iff it satisfies the clause set of at
+   least one blocked conditional, i.e. iff its violation pattern is not a superset of the blocked set *)
+Theorem C15_blocking_constraint : forall nv0 sel, (forall hc, In hc sel -> nv0 <= fst hc) -> NoDup (map fst sel) ->
+  (forall hc, In hc sel -> vars_lt nv0 (snd hc)) -> forall a,
+  (exists a', agree nv0 a a' /\ cnfsat a' (exclude sel) = true) <-> (exists hc, In hc sel /\ cnfsat a (snd hc) = true).
+Proof. exact exclude_semantics. Qed.
+Print Assumptions C15_blocking_constraint.
+Theorem C15_blocked_is_superset : forall (g:groups) b a, length b = length g ->
+  (exists kc, In kc (selected b g) /\ cnfsat a (snd kc) = true) <-> sub b (viol g a) = false.
+Proof. exact blocked_iff_superset. Qed.
+Print Assumptions C15_blocked_is_superset.
 
 Example faithful_example : check_faithful 3 [0;1] (FAnd (FVar 0) (FVar 1)) [[(true,0)];[(true,1)]] = true
   /\ check_faithful 3 [0;1] (FOr (FVar 0) (FVar 1)) [[(true,0)]] = false
